@@ -21,9 +21,9 @@ HERE = os.path.dirname(os.path.dirname(os.path.abspath(__file__)))
 FLAGSETS = ["", "-storage", "-partition -size", "-no-simplification -length"]
 
 
-def crosshair(fn, flags, timeout):
+def crosshair(fn, flags, timeout, which=0):
     env = dict(os.environ)
-    env.update({"GASOL_REPO": gasol.REPO, "PYTHONPATH": HERE, "C12_FLAGS": flags})
+    env.update({"GASOL_REPO": gasol.REPO, "PYTHONPATH": HERE, "C12_FLAGS": flags, "C12_WHICH": str(which)})
     t0 = time.time()
     p = subprocess.run([os.path.join(HERE, ".venv", "bin", "crosshair"), "check", "--report_all", "--per_condition_timeout",
                         str(timeout), "harness.ch_c12." + fn], cwd=HERE, env=env, capture_output=True, text=True, timeout=timeout + 180)
@@ -34,7 +34,7 @@ def crosshair(fn, flags, timeout):
         v = "counterexample"
     else:
         v = "inconclusive"
-    return {"function": fn, "flags": flags, "verdict": v, "output": out[-700:], "seconds": round(time.time() - t0, 1)}
+    return {"function": fn, "flags": flags, "which": which, "verdict": v, "output": out[-700:], "seconds": round(time.time() - t0, 1)}
 
 
 def hist_job(j):
@@ -61,14 +61,24 @@ def main():
     rep = report.Report("C12", "model_checking")
     import concurrent.futures as cf
     conds = [("independent", fl, 600) for fl in (FLAGSETS[:3] if tier == "quick" else FLAGSETS)] + [("independent_reach", "", 120)]
-    with cf.ThreadPoolExecutor(max_workers=len(conds)) as ex:
+    # one string-list global at a time (caches, rule lists, orders): their number comes from the current source
+    env = dict(os.environ)
+    env.update({"GASOL_REPO": gasol.REPO, "PYTHONPATH": HERE})
+    nl = int(subprocess.run([os.path.join(HERE, ".venv", "bin", "python"), "-W", "ignore", "-c",
+                             "import harness.ch_c12 as H; print(H.NL)"], cwd=HERE, env=env, capture_output=True, text=True).stdout.strip().splitlines()[-1])
+    for w in range(nl):
+        for fl in ([""] if tier == "quick" else ["", "-storage"]):
+            conds.append(("independent_of_lists", fl, 600, w))
+    with cf.ThreadPoolExecutor(max_workers=16) as ex:
         futs = [ex.submit(crosshair, *c) for c in conds]
         # native histories meanwhile
         poolblocks = ["PUSH 0 DUP2 ADD PUSH 3 MUL", "DUP3 DUP3 MSTORE DUP2 MLOAD DUP1 DUP3 ADD", "DUP2 DUP2 SSTORE DUP1 SLOAD PUSH 1 ADD",
                       "PUSH 20 DUP2 KECCAK256 DUP2 MLOAD LT ISZERO", "CALLER PUSH ffffffffffffffffffffffffffffffffffffffff AND DUP2 EQ",
                       "DUP1 DUP3 LOG1 PUSH 5 DUP2 MSTORE", "PUSH 1 DUP2 SHL DUP3 MUL", "DUP2 DUP2 SUB ISZERO ISZERO", "NOT NOT",
                       "DUP1 PUSH 1 OR DUP1 PUSH 1 OR ISZERO", "PUSH 5 PUSH 3 PUSH 2 ADDMOD DUP2 MUL", "DUP2 DUP2 MSTORE8 DUP2 DUP2 MSTORE8",
-                      "GAS DUP2 ADD GAS MUL", "TIMESTAMP DUP1 ADD", "PUSH [tag] 5 DUP2 ADD", "DUP1 ISZERO ISZERO ISZERO"]
+                      "GAS DUP2 ADD GAS MUL", "TIMESTAMP DUP1 ADD", "PUSH [tag] 5 DUP2 ADD", "DUP1 ISZERO ISZERO ISZERO",
+                      "PUSH 3 PUSH 4 ADD SWAP2 POP", "PUSH 3 PUSH 4 ADD SWAP1 POP", "PUSH 3 PUSH 4 ADD", "PUSH 4 PUSH 3 MUL DUP2 ADD"]
+        poolblocks = poolblocks[-4:] + poolblocks[:-4]
         if tier == "thorough":
             poolblocks += F.consuming_singles(["ADD", "SHL", "LT", "AND"])[::5] + F.f_mem((2,), deltas=[0, 32])[::40]
         subjects = poolblocks[:10] if tier == "quick" else poolblocks[:24]
@@ -93,7 +103,7 @@ def main():
         if r["verdict"] == "confirmed":
             confirmed += 1
         elif r["verdict"] == "counterexample":
-            m = re.search(r"when calling (independent\(.*\))", r["output"], re.S)
+            m = re.search(r"when calling (independent\w*\(.*\))", r["output"], re.S)
             call = (m.group(1) if m else r["output"])[:600]
             rep.violation("havoc:%s:%s" % (r["flags"], re.sub(r"-?\d{3,}", "N", call)[:200]),
                           "a value left in a module global changes the specification: %s [flags %r]" % (call, r["flags"]), r)
@@ -128,8 +138,8 @@ def main():
         "states": max(1, confirmed), "transitions": max(1, runs), "traces_validated_against_impl": runs,
         "samples": [{"crosshair": [(r["function"], r["flags"], r["verdict"], r["seconds"]) for r in chres]},
                     {"history": list(hists[20]) if len(hists) > 20 else [], "subject": subjects[0]}],
-        "explanation": "states = CrossHair conditions confirmed over all paths (each: all scalar assigned globals havocked symbolically "
-                       "at once, 8 subject blocks); transitions = native history runs (fresh process each: 0, 1 or 2 predecessor blocks "
+        "explanation": "states = CrossHair conditions confirmed over all paths (all scalar assigned globals havocked symbolically at once; "
+                       "each string-list global set to an arbitrary list of at most one arbitrary string; 9 subject blocks); transitions = native history runs (fresh process each: 0, 1 or 2 predecessor blocks "
                        "then the subject block; specification, sub-blocks, emitted code and statistics deltas compared with the empty history)",
         "functions": ["ir_block.evm2rbr_compiler", "gasol_optimization.get_sfs_dict", "gasol_asm.optimize_asm_contract", "gasol_asm.update_*_count"],
         "stubs": ["under CrossHair only: ir_block.write_rbr, gasol_optimization.open/os, ir_block.os (debug dumps; the audit wall forbids file writes)"],
